@@ -177,6 +177,7 @@ BUILTINS = {
     'unpivot': S('unpivot', [{'name': 'b', 'keys': {'k': 'b'}}], [{'name': 'k', 'type': 'string'}],
                  {'name': 'v', 'type': 'string'}, resources='r1'),
     'concatenate': S('concatenate', {'a': []}, {'name': 'cc'}),
+    'concatenate_r1r2': S('concatenate', {'a': []}, {'name': 'c12'}, resources=['r1', 'r2']),
     'duplicate': S('duplicate', 'r1'),
     'duplicate_end': S('duplicate', 'r1', duplicate_to_end=True),
     'delete_resource': S('delete_resource', 'r2'),
@@ -215,7 +216,7 @@ SIGMA_FULL = list(BUILTINS) + list(USER) + list(NONLINKS)                       
 SIGMA_NOKIND = list(BUILTINS) + ['user:%s:function' % r for r in ROLE_IMPL]     # "Sigma37"
 SIGMA_ROW = ['add_field', 'delete_fields', 'rename_fields', 'filter_rows', 'set_type', 'unpivot', 'duplicate',
              'concatenate', 'sort_rows', 'user:row_inplace:function', 'user:rows:function',
-             'user:package:function', 'gen150']                                    # "Sigma12" + a one-shot generator source
+             'user:package:function', 'gen150', 'concatenate_r1r2']                                    # "Sigma12" + a one-shot generator source
 FILE_WRITERS = {'dump_to_path', 'dump_to_path_json', 'stream', 'checkpoint'}
 UNORDERED_SYMS = set()
 
@@ -598,6 +599,10 @@ def check_variants(init, path, lz, sw):
                                          'positions': list(range(i + 1, j + 2))}] + syms[j + 1:]
             positions = [0] + list(range(1, i + 1)) + [i + 1] + list(range(j + 2, n + 1))
             cmp('conditional', steps, positions)
+    # the same Flow object asked again (datastream, then results, then process): nothing may be remembered between calls.
+    # Only for paths whose links are re-iterable and do not edit their own arguments (one-shot generators excluded).
+    if not any(s in ('gen150', 'iterable') or s.startswith('user:') for s in path):
+        viol.extend(check_reuse(init, path, lz))
     # entry points
     steps, positions = lazy_steps(init, path)
     rr = _run_record(steps, positions, via='results')
@@ -624,6 +629,37 @@ def check_variants(init, path, lz, sw):
         elif pr['tree'] != rr['tree'] or pr['log'] != rr['log'] or \
                 [m for m in pr['missing'] if m not in sw['legit_missing']]:
             viol.append(('process', 'Flow(%s).process(): side effects differ from results()' % ', '.join(path)))
+    return viol
+
+
+def check_reuse(init, path, lz):
+    viol = []
+    with core.scratch_dir() as d:
+        env = Env(d)
+        env.expected_markers = set()
+        steps, positions = lazy_steps(init, path)
+        try:
+            links = []
+            for s, p in zip(steps, positions):
+                env.pos = p
+                links.append(build_link(s, env))
+            flow = core.Flow(*links)
+            with core.fake_mp():
+                first = core.materialise(flow)
+                results, dp, _ = flow.results(on_error=None)
+                second = State(copy.deepcopy(dp.descriptor), results)
+                third = core.materialise(flow)
+        except core.CaseTimeout:
+            raise
+        except Exception as e:
+            return [('reuse', 'Flow(%s): asking the same Flow object again raises %s: %s' % (', '.join(path), core.exc_sig(e), str(e)[:80]))]
+    base = lz['res'][1]
+    for label, st in (('first datastream()', first), ('then results()', second), ('then datastream() again', third)):
+        a, b = st, base
+        dd = state_diff(State(strip_stats(a.desc), a.rows), State(strip_stats(b.desc), b.rows))
+        if dd:
+            viol.append(('reuse', 'Flow(%s): the same Flow object, %s: %s' % (', '.join(path), label, dd)))
+            break
     return viol
 
 
